@@ -327,10 +327,10 @@ class RawAlgorithmsMixIn:
                     'algopy broadcasting is not implemented for this function')
         D = x_data.shape[0]
         xmask = numpy.less_equal(x_data[0], y_data[0])
-        ymask = 1 - xmask
         z_data = numpy.empty_like(x_data)
         for d in range(D):
-            numpy.add(xmask * x_data[d], ymask * y_data[d], out=z_data[d])
+            # select, do not blend: 0 * inf is nan
+            z_data[d] = numpy.where(xmask, x_data[d], y_data[d])
         if out is not None:
             out[...] = z_data[...]
             return out
@@ -344,10 +344,10 @@ class RawAlgorithmsMixIn:
                     'algopy broadcasting is not implemented for this function')
         D = x_data.shape[0]
         xmask = numpy.greater_equal(x_data[0], y_data[0])
-        ymask = 1 - xmask
         z_data = numpy.empty_like(x_data)
         for d in range(D):
-            numpy.add(xmask * x_data[d], ymask * y_data[d], out=z_data[d])
+            # select, do not blend: 0 * inf is nan
+            z_data[d] = numpy.where(xmask, x_data[d], y_data[d])
         if out is not None:
             out[...] = z_data[...]
             return out
